@@ -68,6 +68,7 @@ type TypeContract struct {
 	Immutable []string
 	Atomic    []string
 	Inv       []Clause
+	Rely      map[string][]Clause // two-state invariants per lock: what other critical sections may do
 	Flags     map[string][]string
 	Tags      []string
 }
@@ -98,13 +99,14 @@ type Contracts struct {
 	Specs  map[string]*SpecFun
 	Ghosts map[string]string // name -> sort spec
 	LocalGhost map[string]bool
+	Defines    map[string]string
 	Axioms []Clause
 	Lemmas []*Lemma
 	Sources []string
 }
 
 func newContracts() *Contracts {
-	return &Contracts{Preds: map[string]*PredDef{}, Funcs: map[string]*FuncContract{}, Types: map[string]*TypeContract{}, Specs: map[string]*SpecFun{}, Ghosts: map[string]string{}, LocalGhost: map[string]bool{}}
+	return &Contracts{Preds: map[string]*PredDef{}, Funcs: map[string]*FuncContract{}, Types: map[string]*TypeContract{}, Specs: map[string]*SpecFun{}, Ghosts: map[string]string{}, LocalGhost: map[string]bool{}, Defines: map[string]string{}}
 }
 
 var tagRe = regexp.MustCompile(`\s*\[(C\d{2,3}(?:\.[A-Za-z0-9_\-']+)?|nospawn|trusted)\]\s*$`)
@@ -189,6 +191,18 @@ func (cs *Contracts) LoadFile(path string, goFile bool) error {
 	}
 	for _, ln := range lines {
 		t := ln.text
+		for name, val := range cs.Defines {
+			if strings.Contains(t, "$"+name) {
+				t = strings.ReplaceAll(t, "$"+name, val)
+			}
+		}
+		if strings.HasPrefix(t, "define ") {
+			f := strings.SplitN(strings.TrimSpace(t[7:]), " ", 2)
+			if len(f) == 2 {
+				cs.Defines[f[0]] = strings.TrimSpace(f[1])
+			}
+			continue
+		}
 		word, rest := t, ""
 		if i := strings.IndexAny(t, " \t"); i >= 0 {
 			word, rest = t[:i], strings.TrimSpace(t[i+1:])
@@ -306,6 +320,20 @@ func (cs *Contracts) LoadFile(path string, goFile bool) error {
 					return err
 				}
 				curT.Inv = append(curT.Inv, c)
+			case "rely":
+				i := strings.Index(rest, ":")
+				if i < 0 {
+					return fmt.Errorf("%s:%d: bad rely (rely <lock>: expr)", path, ln.no)
+				}
+				c, err := mk(rest[i+1:], ln.no)
+				if err != nil {
+					return err
+				}
+				if curT.Rely == nil {
+					curT.Rely = map[string][]Clause{}
+				}
+				lk := strings.TrimSpace(rest[:i])
+				curT.Rely[lk] = append(curT.Rely[lk], c)
 			default:
 				body, tags := splitTags(rest)
 				curT.Tags = append(curT.Tags, tags...)
